@@ -61,12 +61,18 @@ var props = map[string]propCfg{
 	"C06": {Level: "exploration", DeathIsViolation: true,
 		Quick:    tierCfg{Checks: 1200, Shards: 16, Guard: 15 * time.Minute},
 		Thorough: tierCfg{Checks: 48000, Shards: 16, Guard: 120 * time.Minute}},
+	"C08": {Level: "exploration", DeathIsViolation: true,
+		Quick:    tierCfg{Checks: 960, Shards: 16, Guard: 20 * time.Minute},
+		Thorough: tierCfg{Checks: 16000, Shards: 16, Guard: 180 * time.Minute}},
 	"C09": {Level: "exploration", DeathIsViolation: true,
 		Quick:    tierCfg{Checks: 1200, Shards: 16, Guard: 15 * time.Minute},
 		Thorough: tierCfg{Checks: 48000, Shards: 16, Guard: 120 * time.Minute}},
 	"C07": {Level: "exploration", DeathIsViolation: true,
 		Quick:    tierCfg{Checks: 1600, Shards: 16, Guard: 15 * time.Minute},
 		Thorough: tierCfg{Checks: 64000, Shards: 16, Guard: 120 * time.Minute}},
+	"C10": {Level: "exploration", DeathIsViolation: true,
+		Quick:    tierCfg{Checks: 1200, Shards: 16, Guard: 15 * time.Minute},
+		Thorough: tierCfg{Checks: 48000, Shards: 16, Guard: 120 * time.Minute}},
 	"C12": {Level: "exploration",
 		Quick:    tierCfg{Checks: 3200, Shards: 16, Guard: 10 * time.Minute},
 		Thorough: tierCfg{Checks: 64000, Shards: 16, Guard: 90 * time.Minute}},
